@@ -62,6 +62,7 @@ func main() {
 		} else {
 			c = genL2(r, i/5*2+i%5-3)
 		}
+		c.Debug = i%3 == 2
 		runCase(&c, sum, cases, i)
 	}
 	gatedChecks(sum, 6)
@@ -105,6 +106,11 @@ func nontrivial(c *Case) bool {
 }
 
 func runCase(c *Case, sum *hutil.Summary, cases *hutil.CaseFile, i int) {
+	auditd.SetLogger(hutil.Logger(c.Debug))
+	defer auditd.SetLogger(hutil.Logger(false))
+	if c.Debug {
+		sum.Dist("debug_logging_on")
+	}
 	key := mustJSON(c.Items) + fmt.Sprint(c.MaxSz, c.FailAt, c.Budget, c.AfterSec)
 	sum.Count(key, nontrivial(c))
 	sum.Dist(fmt.Sprintf("level%d_%s", c.Level, c.Mode))
